@@ -32,6 +32,11 @@ type c20Quote struct {
 	// field: 0 the type they are filed under, 1 nothing, 2 the other type
 	// (AddQuote's first argument is what names the fee).
 	Label int `json:"fee_label,omitempty"`
+	// DataMul: the data fee is the same rate written per DataMul times as many bytes (0, 1: same unit)
+	DataMul int `json:"data_fee_unit_multiplier,omitempty"`
+	// Relay: the relay fees are 0 the mining fees, 1 absent, 2 half, 3 twice the mining fees
+	// (the quoted fee of a transaction is its mining fee)
+	Relay int `json:"relay_fee_variant,omitempty"`
 }
 
 type c20Flow struct {
@@ -121,7 +126,20 @@ func mkQuote(q c20Quote) *bt.FeeQuote {
 		case 2:
 			label = map[bt.FeeType]bt.FeeType{bt.FeeTypeStandard: bt.FeeTypeData, bt.FeeTypeData: bt.FeeTypeStandard}[t]
 		}
-		fq.AddQuote(t, &bt.Fee{FeeType: label, MiningFee: bt.FeeUnit{Satoshis: q.Sat, Bytes: q.Bytes}, RelayFee: bt.FeeUnit{Satoshis: q.Sat, Bytes: q.Bytes}})
+		unit := bt.FeeUnit{Satoshis: q.Sat, Bytes: q.Bytes}
+		if t == bt.FeeTypeData && q.DataMul > 1 {
+			unit = bt.FeeUnit{Satoshis: q.Sat * q.DataMul, Bytes: q.Bytes * q.DataMul}
+		}
+		relay := unit
+		switch q.Relay {
+		case 1:
+			relay = bt.FeeUnit{}
+		case 2:
+			relay.Satoshis /= 2
+		case 3:
+			relay.Satoshis *= 2
+		}
+		fq.AddQuote(t, &bt.Fee{FeeType: label, MiningFee: unit, RelayFee: relay})
 	}
 	return fq
 }
@@ -658,6 +676,8 @@ func init() {
 				f.AcceptDelta = prng.Pick(r, []int64{-1, 1, 150, 300, 5000, 1000000})
 			}
 			f.Quote.Label = prng.Pick(r, []int{0, 0, 1, 2})
+			f.Quote.DataMul = prng.Pick(r, []int{0, 0, 10, 3})
+			f.Quote.Relay = prng.Pick(r, []int{0, 0, 1, 2, 3})
 			f.OrdWide = f.OrdInscr && r.Chance(1, 4)
 			if f.OrdInscr && r.Chance(1, 5) { // inscriptions around and beyond the pre-Genesis script size limit
 				f.OrdDataLen = prng.Pick(r, []int{600, 9000, 9990, 12000, 70000})
